@@ -32,28 +32,28 @@ def stageBuilder (b : Builder α) (index : Nat) (ovrs : List Ovr) : Builder α :
 variable {G : Type}
 
 /-- one optimisation stage on a crystal state: build, then `optimise_state` -/
-def runStage (next : Nat → G → (Nat × α × α) × G) (mkGen : Nat → G) (b : Builder α) (st : Crystal α) :
-    Outcome (Crystal α) :=
+def runStage (next : Nat → G → (Nat × α × α) × G) (mkGen : Nat → G) (b : Builder α) (st : Crystal α)
+    (sc : Crystal α → Option α := Crystal.score) : Outcome (Crystal α) :=
   match b.build with
   | .panic p => .panic p
   | .ok cfg =>
-    let score : Nat → Array α → Option α := fun _ h => (st.withHeap h).score
+    let score : Nat → Array α → Option α := fun _ h => sc (st.withHeap h)
     match optimise score cfg next (mkGen cfg.seed) st.heap st.handles with
     | .panic p => .panic p
     | .ok r => .ok (st.withHeap r.heap)
 
 /-- the three stages of one replica -/
 def replica (next : Nat → G → (Nat × α × α) × G) (mkGen : Nat → G) (b : Builder α) (st : Crystal α)
-    (index : Nat) : Outcome (Crystal α) :=
+    (index : Nat) (sc : Crystal α → Option α := Crystal.score) : Outcome (Crystal α) :=
   Generated.cliStages.foldl (fun acc ovrs =>
     match acc with
     | .panic p => .panic p
-    | .ok s => runStage next mkGen (stageBuilder b index ovrs) s) (.ok st)
+    | .ok s => runStage next mkGen (stageBuilder b index ovrs) s sc) (.ok st)
 
 /-- `std::cmp::max` on states ordered by score: the right operand unless the left is strictly
 greater; comparing with an undefined or NaN score panics (`partial_cmp(..).unwrap()`) -/
-def maxRight (a b : Crystal α) : Option (Crystal α) :=
-  match a.score, b.score with
+def maxRight (a b : Crystal α) (sc : Crystal α → Option α := Crystal.score) : Option (Crystal α) :=
+  match sc a, sc b with
   | some x, some y =>
     if !(x == x) || !(y == y) then none          -- NaN: partial_cmp = None, unwrap panics
     else if y < x then some a else some b
@@ -61,9 +61,10 @@ def maxRight (a b : Crystal α) : Option (Crystal α) :=
 
 /-- sequential left fold of `maxRight` (one of the bracketings rayon may choose; by
 `reduce_any_tree` every bracketing gives the same result) -/
-def reduceMax : List (Crystal α) → Option (Option (Crystal α))
+def reduceMax (l : List (Crystal α)) (sc : Crystal α → Option α := Crystal.score) : Option (Option (Crystal α)) :=
+  match l with
   | [] => some none
-  | x :: xs => (xs.foldl (fun acc y => acc.bind fun a => maxRight a y) (some x)).map some
+  | x :: xs => (xs.foldl (fun acc y => acc.bind fun a => maxRight a y sc) (some x)).map some
 
 inductive CliOutcome (α : Type)
   | written (st : Crystal α) (score : α)
@@ -72,17 +73,17 @@ inductive CliOutcome (α : Type)
 
 /-- `analyse_state` -/
 def cliRun (next : Nat → G → (Nat × α × α) × G) (mkGen : Nat → G) (b : Builder α) (st : Crystal α)
-    (replications : Nat) : CliOutcome α :=
-  let results := (List.range replications).map (replica next mkGen b st)
+    (replications : Nat) (sc : Crystal α → Option α := Crystal.score) : CliOutcome α :=
+  let results := (List.range replications).map (fun i => replica next mkGen b st i sc)
   match results.find? (fun r => match r with | .panic _ => true | .ok _ => false) with
   | some (.panic p) => .panic p
   | _ =>
     let states := results.filterMap fun r => match r with | .ok s => some s | .panic _ => none
-    match reduceMax states with
+    match reduceMax states sc with
     | none => .panic .finalInvalid
     | some none => .error "Error in running optimisation."
     | some (some best) =>
-      match best.score with
+      match sc best with
       | some v => .written best v
       | none => .error "State has become corrupted"
 
